@@ -103,8 +103,64 @@ def judge(ctx, rng, curve, secret, g, klass, forged, chain_raw):
                 ctx.violation('C23|derived-group-hash-differs|' + cn, '%s vs %s' % (derived.hash(), B.encode(E.blake2b_256(dforged + draw), 'o')), case)
         except Exception as e:
             ctx.violation('C23|derived-group-raises|' + type(e).__name__, repr(e)[:200], case)
+    # the same signature in its curve-specific spelling (what Key.sign returns by default, what a detached signer hands back)
+    if curve != b'BL':
+        try:
+            spelled = B.encode(raw, {b'ed': 'edsig', b'sp': 'spsig', b'p2': 'p2sig'}[curve])
+            og2 = OperationGroup(context=og.context, contents=g['contents'], branch=g['branch'], chain_id=chain_id, signature=spelled)
+            ctx.count('hashes_of_groups_with_curve_specific_signature_spelling')
+            if og2.hash() != want_hash:
+                ctx.violation('C23|hash-differs|curve-specific-signature-spelling|' + cn, '%s vs %s' % (og2.hash(), want_hash), case)
+        except Exception as e:
+            ctx.violation('C23|hash-raises|curve-specific-signature-spelling|' + cn, repr(e)[:200], case)
+    # consensus groups built step by step: the chain id given to the first group is still there when the derived group is signed
+    if klass == 'consensus':
+        try:
+            step = OperationGroup(context=og.context, branch=g['branch'], chain_id=chain_id).operation(g['contents'][0])
+            for label, sg in (('derived-then-signed', step.sign()), ('signed-twice', step.sign().sign())):
+                ssig = sg.signature
+                skinds = [k for k in B.KINDS if ssig.startswith(k[0]) and len(ssig) == k[1]]
+                sraw = B.decode_check(ssig)[len(skinds[0][2]):]
+                ctx.count('consensus_groups_built_step_by_step')
+                if not E.verify(curve, key.public_point, sraw, b'\x02' + chain_raw + forged):
+                    ctx.violation('C23|signature-does-not-verify|%s|consensus|%s' % (cn, label), 'sig=%s' % ssig, case)
+        except Exception as e:
+            ctx.violation('C23|sign-raises|%s|consensus-built-step-by-step' % cn, repr(e)[:200], case)
     if len(ctx.samples) < 4:
         ctx.samples.append({'curve': cn, 'class': klass, 'signature': sig, 'hash': got_hash, 'contents': len(g['contents'])})
+
+
+def bulk(ctx, rng, curve, n):
+    """One key, one transfer, n successive counters: signatures whose r or s starts with zero bytes come up once in 256 each."""
+    from pytezos.context.impl import ExecutionContext
+    from pytezos.crypto.key import Key
+    from pytezos.operation.group import OperationGroup
+    secret = gen_secret(rng, curve)
+    key = Key.from_secret_exponent(secret, curve)
+    c = GO.content(rng, 'transaction', source=key.public_key_hash()) if 'source' in GO.content.__code__.co_varnames else GO.content(rng, 'transaction')
+    branch = B.encode(G.rbytes(rng, 32), 'B')
+    base = rng.getrandbits(24)
+    for i in range(n):
+        c = dict(c, counter=str(base + i))
+        g = {'branch': branch, 'contents': [c]}
+        forged = OB.encode_group(g)
+        case = {'curve': curve.decode(), 'secret': secret.hex(), 'group': g, 'class': 'manager', 'chain_id': B.encode(bytes(4), 'Net'), 'forged': forged.hex()}
+        ctx.count('bulk_sign_calls')
+        ctx.case((CNAME[curve], secret, forged), nontrivial=True)
+        try:
+            signed = OperationGroup(context=ExecutionContext(key=key), contents=[c], branch=branch).sign()
+            sig = signed.signature
+            raw = B.decode_check(sig)[len([k for k in B.KINDS if sig.startswith(k[0]) and len(sig) == k[1]][0][2]):]
+        except Exception as e:
+            ctx.violation('C23|sign-raises|%s|bulk' % CNAME[curve], repr(e)[:200], case)
+            continue
+        short = raw[0] == 0 or raw[32] == 0
+        if short:
+            ctx.count('signatures_with_a_leading_zero_byte_in_r_or_s')
+        if not E.verify(curve, key.public_point, raw, b'\x03' + forged):
+            ctx.violation('C23|signature-does-not-verify|%s|manager|%s' % (CNAME[curve], 'short-r-or-s' if short else 'other'), 'sig=%s' % sig, case)
+        elif short and signed.hash() != B.encode(E.blake2b_256(forged + raw), 'o'):
+            ctx.violation('C23|hash-differs|' + CNAME[curve], signed.hash(), case)
 
 
 def run(ctx):
@@ -125,6 +181,9 @@ def run(ctx):
             klass, forged = 'consensus', B.decode(g['branch'], 'B') + b'\x00' + level.to_bytes(4, 'big')
         chain_raw = rng.choice([b'\x00' * 4, b'\xff' * 4, G.rbytes(rng, 4)])
         judge(ctx, rng, curve, gen_secret(rng, curve), g, klass, forged, chain_raw)
+    for curve in (b'p2', b'sp'):
+        bulk(ctx, rng, curve, ctx.pick(2400, 40000) // ctx.nshards)
+    ctx.require('bulk_sign_calls', 100)
     for c in CNAME.values():
         ctx.require('curve_' + c, 1)
     ctx.require('class_consensus', 1)
